@@ -113,6 +113,12 @@ def write_nifti_image(data: Tensor, grid: Grid, path: PathUri) -> None:
         raise ValueError("write_image() data.ndim must be equal to grid.ndim or grid.ndim + 1")
     # Reverse order of axes
     dataobj = np.transpose(data.numpy(), axes=tuple(reversed(range(data.ndim))))
+    # Scalar image without channel dimension, vector components along 5th dimension
+    nchannels = dataobj.shape[-1]
+    if nchannels == 1:
+        dataobj = dataobj[..., 0]
+    else:
+        dataobj = dataobj.reshape(dataobj.shape[:-1] + (1,) * (4 - grid.ndim) + (nchannels,))
     # Homogeneous matrix mapping voxel indices to world coordinates
     D = grid.ndim
     affine = np.eye(4)
@@ -122,5 +128,8 @@ def write_nifti_image(data: Tensor, grid: Grid, path: PathUri) -> None:
     affine[:2] *= -1
     with StorageObject.from_path(path) as obj:
         local_path = unlink_or_mkdir(obj.path)
-        nib.save(nib.Nifti1Image(dataobj, affine), str(local_path))
+        image = nib.Nifti1Image(dataobj, affine)
+        if nchannels > 1:
+            image.header.set_intent("vector")
+        nib.save(image, str(local_path))
         obj.push(force=True)
